@@ -420,14 +420,25 @@ func (c *StructCode) lastAnonymousFieldCode(firstField *Opcode) *Opcode {
 	// So, StructHead's next operation is truly struct head operation.
 	// ( only the heads of embedded structs are stepped over: a first member that holds a struct
 	// under its own name has the same operation, and its members are not members of this struct )
-	for (firstField.Op == OpStructHead || firstField.Op == OpStructField) && firstField.Flags&AnonymousKeyFlags != 0 {
-		firstField = firstField.Next
-	}
 	lastField := firstField
+	for isAnonymousStructOp(lastField) {
+		// the last member of an embedded struct may be an embedded struct again: its last member
+		// is the last member of them all
+		for isAnonymousStructOp(lastField) {
+			lastField = lastField.Next
+		}
+		for lastField.NextField != nil {
+			lastField = lastField.NextField
+		}
+	}
 	for lastField.NextField != nil {
 		lastField = lastField.NextField
 	}
 	return lastField
+}
+
+func isAnonymousStructOp(code *Opcode) bool {
+	return (code.Op == OpStructHead || code.Op == OpStructField) && code.Flags&AnonymousKeyFlags != 0
 }
 
 func (c *StructCode) ToOpcode(ctx *compileContext) Opcodes {
@@ -512,7 +523,7 @@ func (c *StructCode) ToAnonymousOpcode(ctx *compileContext) Opcodes {
 		return Opcodes{recursive}
 	}
 	codes := Opcodes{}
-	var prevField *Opcode
+	var prevField, prevLastField *Opcode
 	for idx, field := range c.fields {
 		isFirstField := idx == 0
 		isEndField := idx == len(c.fields)-1
@@ -530,6 +541,11 @@ func (c *StructCode) ToAnonymousOpcode(ctx *compileContext) Opcodes {
 		if prevField != nil {
 			prevField.NextField = firstField
 		}
+		if prevLastField != nil {
+			// the last member of an embedded struct inside this embedded struct goes on with
+			// this member when it is omitted ( as in ToOpcode )
+			prevLastField.NextField = firstField
+		}
 		if isEndField {
 			lastField := fieldCodes.Last()
 			if len(codes) > 0 {
@@ -539,6 +555,10 @@ func (c *StructCode) ToAnonymousOpcode(ctx *compileContext) Opcodes {
 			}
 		}
 		prevField = firstField
+		prevLastField = nil
+		if isEmbeddedStruct(field) {
+			prevLastField = c.lastAnonymousFieldCode(firstField)
+		}
 		codes = codes.Add(fieldCodes...)
 	}
 	return codes
@@ -751,8 +771,14 @@ func (c *StructFieldCode) addStructEndCode(ctx *compileContext, codes Opcodes) O
 	}
 	codes.Last().Next = end
 	code := codes.First()
-	for (code.Op == OpStructField || code.Op == OpStructHead) && code.Flags&AnonymousKeyFlags != 0 {
-		code = code.Next
+	for isAnonymousStructOp(code) {
+		// the last member may be an embedded struct again, down to a member that is written
+		for isAnonymousStructOp(code) {
+			code = code.Next
+		}
+		for code.NextField != nil {
+			code = code.NextField
+		}
 	}
 	for code.NextField != nil {
 		code = code.NextField
